@@ -488,7 +488,7 @@ def thin(rng, job):
     return None
 
 
-def run(ctx, replay_jobs=None):
+def run(ctx, replay_jobs=None, replay_glue=None):
     C.build_scratch(ctx)
     rng = ctx.rng
     broken = []
@@ -498,13 +498,15 @@ def run(ctx, replay_jobs=None):
     stats = {"pieces": 0, "balance_checked": 0, "g_near_breakpoint": 0}
     if replay_jobs is not None:
         jobs = replay_jobs
+    elif replay_glue is not None:
+        jobs = f4_probe_jobs()
     else:
         jobs = load_corpus() + f4_probe_jobs() + make_edge_jobs(rng)
-        for _ in range(ctx.n(700, 25000)):
+        for _ in range(ctx.n(700, 7000)):
             jobs.append(make_x_job(rng, gen_table_x(rng)))
-        for _ in range(ctx.n(500, 15000)):
+        for _ in range(ctx.n(500, 5000)):
             jobs.append(make_d_job(rng, gen_table_d(rng)))
-        for _ in range(ctx.n(500, 15000)):
+        for _ in range(ctx.n(500, 5000)):
             jobs.append(make_g_job(rng, gen_table_g(rng)))
     run_impl(ctx, jobs)
     # determinism on the implementation: the same job again gives the same answers (fresh process, after reset)
@@ -536,6 +538,23 @@ def run(ctx, replay_jobs=None):
     if err:
         broken.append("correspondence case files did not evaluate: " + err[-800:])
     mism = [owners[i] for i in bad]
+
+    # handler glue that builds the table (_fill_lifting, fixed-separations send_out_state)
+    import c05_glue
+    glue = None
+    if replay_jobs is None or replay_glue is not None:
+        glue = c05_glue.run(ctx, rng, replay_glue)
+        gfail = list(glue["fails"])
+        if glue["terms"]:
+            _, gbad, _, _, gerr = C.eval_cases(ctx, "c05g", HEADER, glue["terms"], "check_lcase", "lcase", per_file=100)
+            if gerr:
+                broken.append("glue case files did not evaluate: " + gerr[-500:])
+            gfail += [(glue["owners"][i], "table built by the handler glue: the model selects another unit than "
+                                          "the implementation") for i in gbad]
+        if gfail:
+            job, m = gfail[0]
+            C.violation(ctx, "glue", {"kind": "c05-glue", "job": job, "message": m, "n_failing": len(gfail)},
+                        "C05 (table-building glue) fails on the implementation: " + m)
 
     # verdicts
     if f4:
@@ -574,7 +593,7 @@ def run(ctx, replay_jobs=None):
     for j in jobs:
         sizes[len(j.tab)] = sizes.get(len(j.tab), 0) + 1
     C.write_evidence(ctx, {
-        "evaluations": nq,
+        "evaluations": nq + (glue["n"] if glue else 0),
         "distinct_nontrivial": len({(j.stream, tuple(j.tab)) for j in jobs if len(j.tab) >= 2}),
         "rule": "distinct (stream, table) pairs with at least 2 units; every table is queried for every scheme, every "
                 "positive unit as the active one (every position in the insertion order), at both end points of the "
@@ -588,18 +607,23 @@ def run(ctx, replay_jobs=None):
                                    stats["g_near_breakpoint"],
                                "balance_integrals(table x scheme)": stats["balance_checked"],
                                "constant_pieces_integrated": stats["pieces"],
-                               "f4_class_draws": len(f4)},
+                               "f4_class_draws": len(f4),
+                               "handler_glue": glue["summary"] if glue else "not run in table replay"},
         "model_vs_impl_mismatches": len(mism),
         "oracle_failures": len(fails),
-        "traces_validated_against_impl": neval,
+        "traces_validated_against_impl": n_draws,
+        "coq_case_terms_evaluated": neval,
         "case_files": nfiles, "case_files_ok": nok,
         "explanation": "Props/C05.v re-checked (%d theorems incl. flow_balance for all table lengths); exact "
                        "correspondence of Model/Lifting.v with the real lifting classes evaluated in Coq on the X "
                        "(exact rational), D (dyadic float) and E (edge/error) streams, identifier-only on generic "
                        "doubles away from break points; Python oracle independent of the model: never-nonnegative on "
                        "every draw, global balance by exact integration of the implementation's selection over the "
-                       "draw (piecewise constant between candidate break points); _fill_lifting glue of the "
-                       "composite-object handlers NOT driven (skipped)" % nthm,
+                       "draw (piecewise constant between candidate break points); table-building glue: the real "
+                       "_fill_lifting (TwoCompositeObjectBoundingPotentialEventHandler) and the insert loop of the "
+                       "fixed-separations handler's send_out_state driven on stub handlers with exact numbers, "
+                       "recorded insert calls compared with the factor-derivative table and run through the model"
+                       % nthm,
         "trusted_base": TRUSTED,
     }, ASSUME)
 
@@ -624,7 +648,8 @@ ASSUME = [
     "the flow-balance oracle assumes the implementation's selection is constant between consecutive candidate "
     "break points (all +-(c_j - p_i)/q_a, +-(S - c_j - p_i)/q_a); it is evaluated at every candidate and mid point",
     "the tie of the model to the code is differential (real classes run on exact numbers and floats), not a "
-    "semantics of Python; the _fill_lifting glue that builds the table from potential derivatives is not driven",
+    "semantics of Python; the table-building glue is driven on stub handler objects (stub potential returning "
+    "prescribed pairwise derivatives), not inside a full mediator run",
 ]
 
 
@@ -654,6 +679,9 @@ def job_from_replay(d):
 
 def replay(ctx, path):
     data = json.load(open(path))
+    if data.get("kind") == "c05-glue":
+        run(ctx, replay_glue=data["job"])
+        return
     if data.get("kind") != "c05-jobs":
         print("replay file holds no concrete input (%s)" % data.get("kind"))
         run(ctx, replay_jobs=f4_probe_jobs())
